@@ -432,6 +432,11 @@ class Interp:
     def list_models(self, cs, args, d):
         fn = cs.fn or ""
         m = fn.rsplit("::", 1)[-1]
+        if m == "concat" and fn.startswith("alloc::slice::") and d and d[0].k in ("tuple", "list"):
+            parts = [x.deref() for x in d[0].v]
+            if all(x.k == "list" for x in parts):
+                return Val("list", [y for x in parts for y in x.v])
+            return None
         if not d:
             if fn == "alloc::vec::Vec::new":
                 return Val("list", [])
@@ -646,6 +651,19 @@ class Interp:
             return args[1] if pos else a
         if m == "unwrap_or":
             return payload if pos else args[1]
+        if m == "unwrap_or_default":
+            if pos:
+                return payload
+            dty = self.body.local_ty(cs.dest["l"]) if cs.dest is not None else ""
+            if dty.startswith("&[") or dty.startswith("alloc::vec::Vec<") or dty.startswith("["):
+                return Val("list", [])
+            if dty in ("alloc::string::String", "&str"):
+                return vstr("")
+            if dty == "bool":
+                return vbool(False)
+            if dty in ("u8", "u16", "u32", "u64", "usize", "i8", "i16", "i32", "i64", "isize"):
+                return vint(0)
+            return None
         if m == "unwrap_or_else":
             return payload if pos else self.call_closure(cs, args[1], [] if is_opt else [payload])
         if m == "or_else" and is_opt:
